@@ -779,6 +779,42 @@ def sweep(kinds=None, cls=None, fixtures_only=False):
     return out
 
 
+# ------------------------------------------------------ content small scope --
+def content_scope():
+    """Hand-built, well-typed content objects (BOUNDED small scope): every content class with its defaults; DocContent over all
+    texts of up to 3 lines from a small grammar (heading lines, body lines, blank, a line that spells a table) x images x tables."""
+    from sharepoint2text.parsing.extractors import data_types as dt
+    import dataclasses
+    import itertools
+    for name, cls in sorted(vars(dt).items()):
+        if isinstance(cls, type) and dataclasses.is_dataclass(cls) and name.endswith("Content") and hasattr(cls, "iterate_units"):
+            try:
+                yield f"{name}()", cls()
+            except TypeError:
+                pass
+    lines = ["Chapter 1", "Subsection A", "intro", "body text", "", "a b"]
+    img = lambda cap: dt.DocImage(image_number=1, content_type="image/png", data=b"x", size_bytes=1, caption=cap)  # noqa: E731
+    for n in range(0, 4):
+        for combo in itertools.product(lines, repeat=n):
+            text = "\n".join(combo)
+            for images in ([], [img("")], [img("body")]):
+                for tables in ([], [[["a", "b"]]]):
+                    yield f"DocContent(main_text={text!r}, images={len(images)}, tables={len(tables)})", dt.DocContent(main_text=text, images=list(images), tables=list(tables))
+
+
+def find_content_scope(limit=None):
+    n = 0
+    for label, obj in content_scope():
+        n += 1
+        F = check_result(obj)
+        bad = [f for f in F if f["kind"] in ("accessor-raises", "not-str", "not-wf", "unit-number", "image-number", "image-size", "bytes", "dim")]
+        if bad:
+            return {"reproduced": True, "target": "data_types.py content classes (hand-built instances)", "inputs": {"object": label},
+                    "expected": "every accessor of the result, its units, images and tables honours the interface", "observed": f"{bad[0]['where']}: {bad[0]['detail']}",
+                    "instances_tried": n}
+    return {"reproduced": False, "note": f"{n} hand-built content objects honour the interface", "instances": n}
+
+
 # --------------------------------------------------------------- isolation --
 META_MEMBERS = ("meta.xml", "docProps/core.xml", "docProps/app.xml")
 
@@ -941,6 +977,8 @@ def find(req):
         return find_table(ob.split("::")[1].split(".")[0])
     if ".get_bytes/" in ob:
         return find_image(ob.split("::")[1].split(".")[0])
+    if "small-scope-accessor-totality" in ob or req.get("content_scope"):
+        return find_content_scope()
     if "populate_from_path-receiver" in ob:
         return find_isolation(ob)
     if "populate_from_path" in ob or "path-fields-default" in ob:
@@ -967,6 +1005,10 @@ def known(fid):
     """Witness replay of a recorded known finding."""
     if fid.startswith("C04-html-charset"):
         return find_html()
+    if fid.startswith("C04-doc-heading-only"):
+        return find_content_scope()
+    if fid.startswith("C04-xlsx-image-dimensions"):
+        return find_garbled_pictures("xlsx_extractor", ("accessor-raises",))
     if fid.startswith("C04-mbox-charset"):
         return find_mbox()
     return {"reproduced": False, "note": "unknown finding"}
